@@ -1,2 +1,308 @@
+//! C04 — BBS proof soundness: (A) single edits of an honest proof (bound 1; thorough bound 2 on structural edits),
+//! (C) exhaustive forgery family assembled from public data only, run through from_bytes AND serde.
+#![allow(non_snake_case)]
+use crate::c02::{header_edits, message_list_edits};
 use crate::common::*;
-pub fn run(_env: &Env) {}
+use crate::edits::*;
+use crate::zk::Kind;
+use bls12_381_plus::{G1Projective, Scalar};
+use group::Group;
+use mccore::{par_for, subsets, O};
+use refbbs::Suite;
+use serde_json::json;
+
+#[derive(Clone, PartialEq, Eq)]
+pub struct Ps {
+    pub suite: Suite,
+    pub pk: Vec<u8>,
+    pub proof: Vec<u8>,
+    pub header: Vec<u8>,
+    pub ph: Vec<u8>,
+    pub dmsgs: Vec<Vec<u8>>,
+    pub idx: Vec<usize>,
+    pub blind_iface: Option<usize>, // Some(L): verify through blind_proof_verify with this L
+}
+impl Ps {
+    fn key(&self) -> Vec<u8> {
+        let mut k = vec![self.suite as u8, self.blind_iface.is_some() as u8];
+        k.extend_from_slice(&self.pk);
+        k.extend_from_slice(&msgs_digest(&[self.proof.clone(), self.header.clone(), self.ph.clone()]));
+        k.extend_from_slice(&msgs_digest(&self.dmsgs));
+        for i in &self.idx { k.extend_from_slice(&(*i as u64).to_be_bytes()); }
+        k
+    }
+    /// in contract: strictly ascending index list (the drafts' precondition)
+    fn in_contract(&self) -> bool { self.idx.windows(2).all(|w| w[0] < w[1]) }
+    fn verify_impl(&self) -> O<()> {
+        match self.blind_iface {
+            None => z(self.suite).proof_verify(&self.pk, &self.proof, Some(&self.header), Some(&self.ph), Some(&self.dmsgs), Some(&self.idx)),
+            Some(l) => z(self.suite).blind_proof_verify(&self.pk, &self.proof, Some(&self.header), Some(&self.ph), Some(l), Some(&self.dmsgs), None, Some(&self.idx), None),
+        }
+    }
+    fn verify_ref(&self) -> Result<(), String> {
+        match self.blind_iface {
+            None => refbbs::proof_verify(self.suite, &self.pk, &self.proof, &self.header, &self.ph, &self.dmsgs, &self.idx),
+            Some(l) => refbbs::blind_proof_verify(self.suite, &self.pk, &self.proof, &self.header, &self.ph, l, &self.dmsgs, &[], &self.idx, &[]),
+        }
+    }
+}
+
+fn edits_for(env: &Env, base: &Ps, l: usize, flip_range: (usize, usize)) -> Vec<Ed<Ps>> {
+    let seed = env.ctx.seed;
+    let letters: Vec<Vec<u8>> = vec![vec![], vec![0x01], mccore::fill(seed, "c04-letter", 32)];
+    // edits of the disclosed message values only (same positions)
+    let mut v: Vec<Ed<Ps>> = message_list_edits::<Ps>(&base.dmsgs, &letters, "dmsg", |s| &s.dmsgs, |s, m| Ps { dmsgs: m, ..s.clone() })
+        .into_iter()
+        .filter(|e| e.class == "dmsg-bitflip" || e.class == "dmsg-replace" || e.class == "dmsg-byte-truncate" || e.class == "dmsg-byte-extend" || e.class == "dmsg-swap" || e.class == "dmsg-delete" || e.class == "dmsg-insert")
+        .collect();
+    v.extend(header_edits::<Ps>(seed, "header", |s| &s.header, |s, h| Ps { header: h, ..s.clone() }));
+    v.extend(header_edits::<Ps>(seed, "ph", |s| &s.ph, |s, h| Ps { ph: h, ..s.clone() }));
+    let r = base.idx.len();
+    for k in 0..r {
+        for val in 0..=(l + 1) {
+            v.push(ed(format!("idx[{k}] := {val}"), "idx-replace", true, move |s: &Ps| {
+                if k >= s.idx.len() || s.idx[k] == val { return None; }
+                let mut i = s.idx.clone(); i[k] = val; Some(Ps { idx: i, ..s.clone() })
+            }));
+        }
+        v.push(ed(format!("drop disclosure #{k} (message and index)"), "disclosure-drop", true, move |s: &Ps| {
+            if k >= s.idx.len() || k >= s.dmsgs.len() { return None; }
+            let mut i = s.idx.clone(); let mut m = s.dmsgs.clone(); i.remove(k); m.remove(k); Some(Ps { idx: i, dmsgs: m, ..s.clone() })
+        }));
+        v.push(ed(format!("drop idx[{k}] only"), "idx-drop", false, move |s: &Ps| {
+            if k >= s.idx.len() { return None; }
+            let mut i = s.idx.clone(); i.remove(k); Some(Ps { idx: i, ..s.clone() })
+        }));
+        v.push(ed(format!("duplicate idx[{k}]"), "idx-duplicate", false, move |s: &Ps| {
+            if k >= s.idx.len() { return None; }
+            let mut i = s.idx.clone(); let x = i[k]; i.insert(k, x); Some(Ps { idx: i, ..s.clone() })
+        }));
+        for k2 in (k + 1)..r {
+            v.push(ed(format!("swap idx[{k}]<->idx[{k2}]"), "idx-swap", false, move |s: &Ps| {
+                if k2 >= s.idx.len() { return None; }
+                let mut i = s.idx.clone(); i.swap(k, k2); Some(Ps { idx: i, ..s.clone() })
+            }));
+        }
+    }
+    // add a disclosure (new index, letter) keeping the list ascending
+    for val in 0..=(l + 1) {
+        for (li, lt) in letters.iter().enumerate() {
+            let lt = lt.clone();
+            v.push(ed(format!("add disclosure ({val}, letter{li})"), "disclosure-add", li == 1, move |s: &Ps| {
+                if s.idx.contains(&val) || s.idx.len() != s.dmsgs.len() { return None; }
+                let pos = s.idx.iter().position(|&x| x > val).unwrap_or(s.idx.len());
+                let mut i = s.idx.clone(); let mut m = s.dmsgs.clone(); i.insert(pos, val); m.insert(pos, lt.clone()); Some(Ps { idx: i, dmsgs: m, ..s.clone() })
+            }));
+        }
+    }
+    for s2 in suites() {
+        for k in keys(s2) {
+            let pk = k.pk.clone();
+            v.push(ed(format!("pk := {}/{}", s2.name(), k.id), "pk-replace", k.id == "k1", move |s: &Ps| { if s.pk == pk { return None; } Some(Ps { pk: pk.clone(), ..s.clone() }) }));
+        }
+    }
+    // hidden-message count: remove each m^_j, append a scalar before the challenge
+    let u = (base.proof.len() - 272) / 32;
+    for j in 0..u {
+        v.push(ed(format!("remove m^_{j}"), "mhat-remove", true, move |s: &Ps| {
+            let off = 240 + 32 * j; if s.proof.len() < off + 64 { return None; }
+            let mut p = s.proof.clone(); p.drain(off..off + 32); Some(Ps { proof: p, ..s.clone() })
+        }));
+    }
+    for (nm, kind) in [("zero", 0u8), ("copy-of-challenge", 1), ("fresh", 2)] {
+        v.push(ed(format!("append {nm} scalar before the challenge"), "mhat-append", kind == 2, move |s: &Ps| {
+            if s.proof.len() < 272 { return None; }
+            let at = s.proof.len() - 32;
+            let sc: Vec<u8> = match kind { 0 => vec![0u8; 32], 1 => s.proof[at..].to_vec(), _ => refbbs::sc_bytes(&refbbs::random_scalar_from(b"c04", b"fresh", 7)).to_vec() };
+            let mut p = s.proof.clone(); p.splice(at..at, sc); Some(Ps { proof: p, ..s.clone() })
+        }));
+    }
+    for kk in 1..=2usize {
+        v.push(ed(format!("truncate proof by {} octets", 32 * kk), "proof-truncate", false, move |s: &Ps| { if s.proof.len() < 32 * kk { return None; } Some(Ps { proof: s.proof[..s.proof.len() - 32 * kk].to_vec(), ..s.clone() }) }));
+        v.push(ed(format!("extend proof by {} zero octets", 32 * kk), "proof-extend", false, move |s: &Ps| { let mut p = s.proof.clone(); p.extend(vec![0u8; 32 * kk]); Some(Ps { proof: p, ..s.clone() }) }));
+    }
+    for bit in flip_range.0..flip_range.1.min(base.proof.len() * 8) {
+        let cls = match bit / 8 { 0..=47 => "proofflip-Abar", 48..=95 => "proofflip-Bbar", 96..=143 => "proofflip-D", 144..=239 => "proofflip-response", _ => "proofflip-mhat-or-challenge" };
+        v.push(ed(format!("proof flip bit {bit}"), cls, false, move |s: &Ps| { if bit / 8 >= s.proof.len() { return None; } Some(Ps { proof: flip(&s.proof, bit), ..s.clone() }) }));
+    }
+    v.push(ed("verify under the other ciphersuite".into(), "cross-suite", true, |s: &Ps| Some(Ps { suite: s.suite.other(), ..s.clone() })));
+    let total = l;
+    for lval in [0usize, total.saturating_sub(1), total] {
+        v.push(ed(format!("verify through the blind interface with L={lval}"), "cross-interface", false, move |s: &Ps| { if s.blind_iface.is_some() { return None; } Some(Ps { blind_iface: Some(lval), ..s.clone() }) }));
+    }
+    v
+}
+
+struct Root { id: String, suite: Suite, key: Key, hn: String, header: Option<Vec<u8>>, pn: String, ph: Option<Vec<u8>>, l: usize, d: Vec<usize>, flips: (usize, usize) }
+
+pub fn run(env: &Env) {
+    let seed = env.ctx.seed;
+    let bound = if env.thorough() { 2 } else { 1 };
+    let maxl = if env.thorough() { 5 } else { 4 };
+    let hs = hdr_small(seed);
+    let combos = [(hs[0].clone(), hs[0].clone()), (hs[2].clone(), hs[2].clone())];
+    let mut roots = Vec::new();
+    for s in suites() {
+        let k = key(s, "k0");
+        for l in 0..=maxl {
+            for d in subsets(l) {
+                if !env.thorough() && l == 4 && ![vec![], vec![0, 1, 2, 3], vec![0], vec![3], vec![1, 2]].contains(&d) { continue; }
+                for ((hn, h), (pn, p)) in combos.iter().cloned() {
+                    let u = l - d.len();
+                    let nbits = (272 + 32 * u) * 8;
+                    // full bit-flip sets: quick on the proofs with (L=2 or 3, |D|=1, both header forms); thorough on all bases
+                    let full = env.thorough() || ((l == 2 || l == 3) && d.len() == 1 && d[0] == 0);
+                    let id0 = format!("{}/L{}/D{:?}/h={}/ph={}", s.name(), l, d, hn, pn);
+                    if full {
+                        let chunk = 384usize;
+                        let mut a = 0;
+                        while a < nbits {
+                            roots.push(Root { id: format!("{}/flips{}-{}", id0, a, a + chunk), suite: s, key: k.clone(), hn: hn.clone(), header: h.clone(), pn: pn.clone(), ph: p.clone(), l, d: d.clone(), flips: (a, (a + chunk).min(nbits)) });
+                            a += chunk;
+                        }
+                    }
+                    roots.push(Root { id: format!("{}/structural", id0), suite: s, key: k.clone(), hn, header: h, pn, ph: p, l, d: d.clone(), flips: (0, 0) });
+                }
+            }
+        }
+    }
+    env.ctx.set_rule("(A) roots = honest proofs over suites x L in 0..=4 (thorough 0..=5) x ALL disclosure sets x {(none,none),(16B,16B)} header/ph; from each root every single edit: disclosed message bit flips / replace / byte truncate / byte extend / swap / drop / insert; each index := every value in 0..=L+1, drop, duplicate, swap; add a disclosure at every free position; header and ph := every alphabet element, bit flips, extend, truncate; pk := every other key; remove each m^_j; append zero/copy/fresh scalar; truncate/extend by 32 and 64 octets; every single-bit flip of every proof octet (quick: 8 proofs; thorough: all); other suite; blind interface. Thorough: all ordered pairs of structural edits. Index lists that are not strictly ascending are outside the drafts' precondition: explored for crashes only, no accept/reject verdict. (C) forgery families from public data only: Abar,Bbar in 6 points x D in 9 points x response slopes {0,1,-1}^(3+U) (+ -1/k when D = k*Bv), U in {0,1}, through from_bytes and through serde. State = edited statement / forged proof; non-trivial = the real verifier ran and its verdict was compared with the semantic (and reference) verdict.");
+    env.ctx.extra("deviation_bound_completed", json!(bound));
+    par_for(&roots, |_, r| {
+        if !env.want(&r.id) || env.ctx.out_of_time() { return; }
+        let zk = z(r.suite);
+        let k = &r.key;
+        let msgs = distinct_msgs(seed, "c04", r.l);
+        let det0 = json!({"suite": r.suite.name(), "L": r.l, "disclosed": r.d, "header": r.hn, "ph": r.pn, "messages": hexv(&msgs)});
+        let sig = match zk.sign(&k.sk, &k.pk, oh(&r.header), Some(&msgs)) { O::Ok(s) => s, o => { env.ctx.violation("C04:base-sign-failed", &o.describe(), env.case(&r.id, det0)); return; } };
+        let proof = match zk.proof_gen(&k.pk, &sig, oh(&r.header), oh(&r.ph), Some(&msgs), Some(&r.d)) { O::Ok(p) => p, o => { env.ctx.violation("C04:base-proof-gen-failed", &o.describe(), env.case(&r.id, det0)); return; } };
+        env.ctx.steps(2);
+        let base = Ps { suite: r.suite, pk: k.pk.clone(), proof, header: hb(&r.header).to_vec(), ph: hb(&r.ph).to_vec(), dmsgs: r.d.iter().map(|&i| msgs[i].clone()).collect(), idx: r.d.clone(), blind_iface: None };
+        let all = edits_for(env, &base, r.l, r.flips);
+        let edits: Vec<Ed<Ps>> = if r.flips.1 > 0 { all.into_iter().filter(|e| e.class.starts_with("proofflip")).collect() } else { all };
+        let b = if r.flips.1 > 0 { 1 } else { bound };
+        let (_s, tr) = explore(&base, &edits, b, &|s| s.key(), &mut |v| {
+            env.ctx.state(&[r.id.as_bytes(), &v.state.key()]);
+            let got = v.state.verify_impl();
+            let cls = if v.classes.is_empty() { "honest".to_string() } else { v.classes.join("+") };
+            let det = json!({"base": det0, "edits": v.path, "proof": hex::encode(&v.state.proof), "idx": v.state.idx, "dmsgs": hexv(&v.state.dmsgs)});
+            if !v.state.in_contract() {
+                // outside the precondition (unsorted / duplicated index list): only "no panic" is demanded
+                env.ctx.step();
+                if let O::Panic(p) = &got { env.ctx.violation(&format!("C04:out-of-contract:{}:panic", cls), &format!("verifier panicked: {}", p), env.case(&r.id, det)); }
+                env.ctx.class("out-of-contract (crash-only)");
+                env.ctx.trace();
+                return;
+            }
+            let sem = *v.state == base;
+            expect(env, &r.id, &format!("proof_verify after [{}]", v.path.join("; ")), &got, sem, &format!("soundness:{}", cls), det);
+            // reference verdict: always in thorough; in quick skipped for plain bit flips that the implementation rejected
+            let skip_ref = !env.thorough() && cls.starts_with("proofflip") && !got.is_ok();
+            let rf = if skip_ref { Err("skipped".to_string()) } else { v.state.verify_ref() };
+            if rf.is_ok() != sem { env.machinery(&format!("C04 reference verdict {:?} != semantic {} at {} [{}]", rf, sem, r.id, v.path.join("; "))); }
+            env.ctx.class(&format!("{}:{}", if sem { "accept" } else { "reject" }, v.classes.first().copied().unwrap_or("honest")));
+            env.ctx.trace();
+            if v.path.len() == 1 && v.path[0].starts_with("add disclosure") { env.ctx.sample(json!({"root": r.id, "edits": v.path, "verdict": got.kind()})); }
+        });
+        env.ctx.add_extra("edit_transitions", tr);
+    });
+    forgery_family(env);
+}
+
+// ---------------------------------------------------------------------------------------------------------------
+// (C) forgery family: proofs assembled from public data only
+
+const AB: [&str; 6] = ["O", "g1", "P1", "Bv", "Abar*", "Bbar*"];
+const DN: [&str; 9] = ["O", "Bv", "-Bv", "2Bv", "P1", "Q1", "H1", "g1", "D*"];
+fn sc_hex(json_be: bool, s: &Scalar) -> String {
+    let mut b = s.to_be_bytes();
+    if !json_be { b.reverse(); }
+    hex::encode(b)
+}
+
+pub fn forgery_family(env: &Env) {
+    let seed = env.ctx.seed;
+    struct Fr { id: String, suite: Suite, u: usize, ia: usize, ib: usize }
+    let mut roots = Vec::new();
+    let maxu = if env.thorough() { 2usize } else { 1 };
+    for s in suites() { for u in 0..=maxu { for ia in 0..6 { for ib in 0..6 {
+        // quick: U=0 in full; U=1 for Abar,Bbar in {O, Bv, Abar*}; thorough: everything, U up to 2
+        if !env.thorough() && u == 1 && !([0usize, 3, 4].contains(&ia) && [0usize, 3, 4].contains(&ib)) { continue; }
+        roots.push(Fr { id: format!("forge/{}/U{}/Abar{}/Bbar{}", s.name(), u, ia, ib), suite: s, u, ia, ib }); } } } }
+    par_for(&roots, |_, r| {
+        if !env.want(&r.id) || env.ctx.out_of_time() { return; }
+        let s = r.suite;
+        let zk = z(s);
+        // the victim: a key the forger has never seen a signature from (k1); claimed statement chosen by the forger
+        let victim = key(s, "k1");
+        let header = mccore::fill(seed, "forge-hdr", 16);
+        let ph = mccore::fill(seed, "forge-ph", 8);
+        let l = 2usize.max(r.u); // claimed total message count = R + U
+        let rcount = l - r.u;
+        let claimed: Vec<Vec<u8>> = (0..rcount).map(|i| format!("forged claim {}", i).into_bytes()).collect();
+        let idx: Vec<usize> = (0..rcount).collect();
+        let api = s.api_id();
+        let gens = refbbs::create_generators(s, l + 1, &api);
+        let (Q1, H) = (gens[0], &gens[1..]);
+        let pk96: [u8; 96] = victim.pk.clone().try_into().unwrap();
+        let domain = refbbs::calculate_domain(s, &pk96, &Q1, H, &header, &api).unwrap();
+        let ms = refbbs::messages_to_scalars(s, &claimed, &api).unwrap();
+        let mut Bv = s.p1() + Q1 * domain;
+        for i in 0..rcount { Bv += H[i] * ms[i]; }
+        // points lifted from an honest proof for OTHER messages under the forger's own key k0 (public data)
+        let own = key(s, "k0");
+        let om = distinct_msgs(seed, "forge-own", 2);
+        let osig = zk.sign(&own.sk, &own.pk, Some(&header), Some(&om)).ok().unwrap();
+        let oproof = refbbs::octets_to_proof(&zk.proof_gen(&own.pk, &osig, Some(&header), Some(&ph), Some(&om), Some(&[0])).ok().unwrap()).unwrap();
+        let g1 = G1Projective::generator();
+        let pts_ab = [G1Projective::IDENTITY, g1, s.p1(), Bv, oproof.Abar, oproof.Bbar];
+        let two = Scalar::from(2u64);
+        let pts_d: [(G1Projective, Option<Scalar>); 9] = [(G1Projective::IDENTITY, None), (Bv, Some(Scalar::ONE)), (-Bv, Some(-Scalar::ONE)), (Bv * two, Some(two)), (s.p1(), None), (Q1, None), (H[0], None), (g1, None), (oproof.D, None)];
+        let (Abar, Bbar) = (pts_ab[r.ia], pts_ab[r.ib]);
+        // JSON calibration: take the implementation's own JSON of the honest proof to learn the scalar byte order
+        let honest_bytes = oproof.to_octets();
+        let hj = zk.json_of(Kind::Proof, &honest_bytes).ok();
+        let json_be = hj.as_ref().map(|j| j.contains(&hex::encode(oproof.c.to_be_bytes())));
+        let nresp = 3 + r.u;
+        let slopes_base = [Scalar::ZERO, Scalar::ONE, -Scalar::ONE];
+        for (id, (D, kmul)) in pts_d.iter().enumerate() {
+            let mut r3_slopes: Vec<Scalar> = slopes_base.to_vec();
+            if let Some(kv) = kmul { let inv = -Option::<Scalar>::from(kv.invert()).unwrap(); if !r3_slopes.contains(&inv) { r3_slopes.push(inv); } }
+            for combo in mccore::tuples(3, nresp) {
+                for (r3i, r3s) in r3_slopes.iter().enumerate() {
+                    // slope of r3 comes from r3_slopes; the tuple's own r3 entry is only used when it is the same index (avoid duplicates)
+                    if r3i < 3 && combo[2] != r3i { continue; }
+                    if r3i >= 3 && combo[2] != 0 { continue; }
+                    let beta: Vec<Scalar> = (0..nresp).map(|i| if i == 2 { *r3s } else { slopes_base[combo[i]] }).collect();
+                    let alpha: Vec<Scalar> = (0..nresp).map(|i| refbbs::random_scalar_from(&seed.to_be_bytes(), b"forge-alpha", i as u64 + 1)).collect();
+                    // intercepts: T1 = a_e*Abar + a_r1*D ; T2 = a_r3*D + sum a_mj*H_j (hidden positions are the last U)
+                    let T1 = Abar * alpha[0] + D * alpha[1];
+                    let mut T2 = D * alpha[2];
+                    for j in 0..r.u { T2 += H[rcount + j] * alpha[3 + j]; }
+                    let init = refbbs::InitRes { Abar, Bbar, D: *D, T1, T2, domain };
+                    let disclosed: Vec<(usize, Scalar)> = idx.iter().copied().zip(ms.iter().copied()).collect();
+                    let c = refbbs::challenge_calculate(s, &init, &disclosed, &ph, &api).unwrap();
+                    let resp: Vec<Scalar> = (0..nresp).map(|i| alpha[i] + beta[i] * c).collect();
+                    let pr = refbbs::Proof { Abar, Bbar, D: *D, e_hat: resp[0], r1_hat: resp[1], r3_hat: resp[2], m_hat: resp[3..].to_vec(), c };
+                    let bytes = pr.to_octets();
+                    let name = format!("{}/D{}/slopes{:?}+r3#{}", r.id, id, combo, r3i);
+                    env.ctx.state(&[name.as_bytes()]);
+                    let det = json!({"suite": s.name(), "victim_key": "k1 (no signature ever produced under it)", "Abar": AB[r.ia], "Bbar": AB[r.ib], "D": DN[id], "slopes(e,r1,r3,m..)": format!("{:?} r3#{}", combo, r3i), "U": r.u, "proof": hex::encode(&bytes), "header": hex::encode(&header), "ph": hex::encode(&ph), "claimed_messages": hexv(&claimed), "idx": idx});
+                    let got = zk.proof_verify(&victim.pk, &bytes, Some(&header), Some(&ph), Some(&claimed), Some(&idx));
+                    let degenerate = bool::from(Abar.is_identity()) || bool::from(Bbar.is_identity()) || bool::from(D.is_identity());
+                    let cls = if degenerate { "forgery:identity-point" } else { "forgery:public-points" };
+                    expect(env, &r.id, &format!("proof_verify(forged proof {})", name), &got, false, &format!("{}:octets", cls), det.clone());
+                    if (env.thorough() || degenerate || got.is_ok()) && refbbs::proof_verify(s, &victim.pk, &bytes, &header, &ph, &claimed, &idx).is_ok() { env.machinery(&format!("reference accepted forged proof {}", name)); }
+                    if let Some(be) = json_be {
+                        let j = json!({"BBSplus": {"Abar": hex::encode(refbbs::g1_bytes(&Abar)), "Bbar": hex::encode(refbbs::g1_bytes(&Bbar)), "D": hex::encode(refbbs::g1_bytes(D)), "e_cap": sc_hex(be, &resp[0]), "r1_cap": sc_hex(be, &resp[1]), "r3_cap": sc_hex(be, &resp[2]), "m_cap": resp[3..].iter().map(|x| sc_hex(be, x)).collect::<Vec<_>>(), "challenge": sc_hex(be, &c)}}).to_string();
+                        let gj = zk.proof_verify_json(&victim.pk, &j, Some(&header), Some(&ph), Some(&claimed), Some(&idx));
+                        expect(env, &r.id, &format!("proof_verify(serde-constructed forged proof {})", name), &gj, false, &format!("{}:serde", cls), det);
+                    }
+                    env.ctx.class(if degenerate { "reject:forged-degenerate" } else { "reject:forged-public" });
+                    env.ctx.trace();
+                }
+            }
+        }
+        if json_be.is_none() { env.ctx.note("JSON calibration failed: serde path of the forgery family skipped"); }
+    });
+}
